@@ -250,6 +250,10 @@ pub fn run(ctx: &mut Ctx) {
         }
         // minimisers over kmers::<K>() (usize)
         let ks: Vec<usize> = (1..=64).filter(|k| kcall_minmax(id, *k, &SeqSpec::plain(vec![])).is_some()).collect();
+        if ks.is_empty() {
+            // a build without the k-mer tables
+            continue;
+        }
         let mins = (select(ks), gen::seq_spec(id, 90)).prop_map(move |(k, s)| MinCase { codec: id, k, s });
         let cases = ctx.cases(600, 20);
         ctx.forall(&format!("minimiser/{}", id.name()), cases, mins, minimiser);
